@@ -215,7 +215,36 @@ def eval_pred(e, env):
     if k == 'Binary' and e['op'] in ('Eq', 'Ne'):
         a, b = eval_val(e['lhs'], env), eval_val(e['rhs'], env)
         return (a == b) if e['op'] == 'Eq' else (a != b)
+    if k == 'Match' and e.get('source') in (None, 'Normal'):
+        # `matches!(..)` and small Boolean matches: first arm whose pattern (and guard) accepts the scrutinee decides
+        v = eval_val(e['scrutinee'], env)
+        for a in e['arms']:
+            env2 = dict(env)
+            if pat_matches(a['pat'], v, env2):
+                if a.get('guard') is not None and not eval_pred(a['guard'], env2): continue
+                return eval_pred(a['body'], env2)
+        raise PredUndec('no arm of the match applies')
+    if k == 'Block' and not e['stmts'] and e['expr'] is not None: return eval_pred(e['expr'], env)
     raise PredUndec('predicate construct %s: %s' % (k, pp(e)[:60]))
+
+def pat_matches(p, v, env):
+    """does pattern p accept the abstract value v?  v: ('tte', variant) | ('bdd', 'True'|'False'|'Choice') | ('tuple', [..])"""
+    p = unwrap_pat(p)
+    k = p['k']
+    if k == 'Wild': return True
+    if k == 'Binding':
+        env[p['var']] = v
+        return p.get('sub') is None or pat_matches(p['sub'], v, env)
+    if k == 'Or': return any(pat_matches(q, v, env) for q in p['pats'])
+    if k == 'Variant':
+        a = canon(p.get('adt', ''))
+        if a == TTE and v[0] == 'tte': return p['variant'] == v[1]
+        if a == BDD and v[0] == 'bdd': return p['variant'] == v[1]
+        raise PredUndec('pattern of another type')
+    if k == 'Leaf' and 'adt' not in p and v[0] == 'tuple':
+        return all(pat_matches(sp['pat'], v[1][sp['field']], env) for sp in p['subs'])
+    if k == 'Constant': raise PredUndec('constant pattern')
+    raise PredUndec('pattern construct %s' % k)
 
 def eval_val(e, env):
     e = strip(e)
@@ -229,6 +258,7 @@ def eval_val(e, env):
     if e['k'] == 'Adt':
         if canon(e['adt']) == TTE: return ('tte', e['variant'])
         if canon(e['adt']) == BDD and e['variant'] in ('True', 'False'): return ('bdd', e['variant'])
+    if e['k'] == 'Tuple': return ('tuple', [eval_val(f, env) for f in e['fields']])
     raise PredUndec('value construct %s' % e['k'])
 
 def leaf_arm_predicate(t, fn, R, what):
@@ -401,11 +431,55 @@ def rule_X3(F, R):
             if d in ('std::ops::Deref::deref', 'std::iter::Iterator::map', 'std::iter::Iterator::cloned', 'std::iter::Iterator::collect', 'std::clone::Clone::clone',
                      'std::iter::IntoIterator::into_iter', 'std::iter::Iterator::copied') or c in ('core::slice::<impl [T]>::iter', 'std::slice::<impl [T]>::to_vec'):
                 return dom_of(e['args'][0])
+            if c in ('std::vec::Vec::new', 'std::vec::Vec::with_capacity'): return ('fresh', 0)
             if c in ('std::vec::from_elem', 'alloc::vec::from_elem') and len(e['args']) == 2:      # vec![x; seq.len()]
                 n = strip(e['args'][1])
                 if n['k'] in ('VarRef', 'UpvarRef'): return lens.get(n['var'])
                 if n['k'] == 'Call' and (callee_name(n) or '') in ('core::slice::<impl [T]>::len', 'std::vec::Vec::len'): return dom_of(n['args'][0])
+        if e['k'] == 'Block':
+            # a block that builds a vector: `let mut v = Vec::new(); for x in SEQ { v.push(..) } v.push(..); v`
+            saved = dict(dom)
+            try:
+                for st in stmts_in_order(e)[:-1] if e['expr'] is not None else stmts_in_order(e): step(st)
+                return dom_of(e['expr']) if e['expr'] is not None else None
+            finally:
+                keep = {k_: v_ for k_, v_ in dom.items() if k_ not in saved}
+                dom.clear(); dom.update(saved)
         return None
+    def step(s):
+        """effect of one statement on the sequence domains: lets, pushes, and loops that push once per element of a sequence"""
+        if s['k'] == 'Let':
+            q = unwrap_pat(s['pat'])
+            if q['k'] == 'Binding' and s['init'] is not None:
+                d = dom_of(s['init'])
+                if d is not None: dom[q['var']] = d
+            return
+        e = s['expr']
+        while e['k'] in ('Use', 'NeverToAny') or (e['k'] == 'Block' and not e['stmts'] and e['expr'] is not None): e = e['source'] if e['k'] != 'Block' else e['expr']
+        if e['k'] == 'Call' and callee_name(e) == 'std::vec::Vec::push':
+            v = root_var(e['args'][0])
+            if v in dom: dom[v] = dom[v] + 1 if not isinstance(dom[v], tuple) else ('fresh', dom[v][1] + 1)
+            return
+        if e['k'] == 'Match' and e.get('source') == 'ForLoopDesugar':
+            sc = strip(e['scrutinee'])
+            src = dom_of(sc['args'][0]) if sc['k'] == 'Call' and sc['args'] else None
+            lbody = None          # the loop body proper: the Some(..) arm of the desugared `match iter.next()`
+            for m_ in walk(e['arms'][0]['body']):
+                if m_['k'] == 'Match' and m_.get('source') == 'ForLoopDesugar':
+                    for a_ in m_['arms']:
+                        p_ = unwrap_pat(a_['pat'])
+                        if p_['k'] == 'Variant' and p_['variant'] == 'Some': lbody = a_['body']
+                    break
+            if lbody is None: lbody = e
+            pushes = [x for x in walk(lbody) if x['k'] == 'Call' and callee_name(x) == 'std::vec::Vec::push']
+            guarded_ = [x for x in walk(lbody) if x['k'] in ('If', 'Break', 'Continue', 'Return', 'Loop') or (x['k'] == 'Match' and x.get('source') != 'TryDesugar' and 'TryDesugar' not in str(x.get('source')))]
+            for v in set(root_var(x['args'][0]) for x in pushes):
+                if v not in dom: continue
+                mine = [x for x in pushes if root_var(x['args'][0]) == v]
+                if isinstance(dom[v], tuple) and dom[v][0] == 'fresh' and len(mine) == 1 and not guarded_ and isinstance(src, int):
+                    dom[v] = src + dom[v][1]        # one push per element of a sequence of known length
+                else:
+                    del dom[v]                      # anything else: length unknown
     lens = {}      # variables holding the length of a sequence: var -> domain of that sequence
     for s in stmts_in_order(main['body']):
         if s['k'] == 'Let' and s['init'] is not None and unwrap_pat(s['pat'])['k'] == 'Binding':
@@ -414,16 +488,8 @@ def rule_X3(F, R):
                 d = dom_of(n['args'][0])
                 if d is not None: lens[unwrap_pat(s['pat'])['var']] = d
     for s in stmts_in_order(main['body']):
-        if s['k'] == 'Let':
-            q = unwrap_pat(s['pat'])
-            if q['k'] == 'Binding' and s['init'] is not None:
-                d = dom_of(s['init'])
-                if d is not None: dom[q['var']] = d
-        else:
-            e = s['expr']
-            if e['k'] == 'Call' and callee_name(e) == 'std::vec::Vec::push':
-                v = root_var(e['args'][0])
-                if v in dom: dom[v] += 1
+        step(s)
+    for v in [k_ for k_, d_ in dom.items() if isinstance(d_, tuple)]: del dom[v]      # vectors that never received the elements of a sequence
     pdom = {}     # (fn, param index) -> set of domains passed
     for e in walk(main['body']):
         if e['k'] == 'Call' and (callee_name(e) or '') in ('rsbdd::print_truth_table_recursive', 'rsbdd::print_true_vars_recursive', 'rsbdd::print_header'):
